@@ -733,7 +733,9 @@ def judge_run(case, P, run, xstar, res, label):
         else:
             res.fail('feasibility:bound-violated-on-success', f"[{label}] {opt} success, " + '; '.join(det))
     # (c) optimality
-    tc = 1e-4 * max(1.0, float(np.max(np.abs(xstar))))
+    # 1e-4 relative, plus what an objective decrease of `tol` (driver units) can hide: s_f*lambda_min(Q)/2*|dx|^2 <= tol
+    tc = 1e-4 * max(1.0, float(np.max(np.abs(xstar)))) + \
+        2.0 * math.sqrt(2.0 * case['tol'] / (abs(run['f_s']) * float(np.linalg.eigvalsh(P.Q)[0])))
     err = float(np.max(np.abs(xj - xstar)))
     if err > tc:
         ximpl = None
@@ -747,7 +749,7 @@ def judge_run(case, P, run, xstar, res, label):
             res.fail(general + '|optimum:design-differs-from-qp-optimum',
                      f"[{label}] {opt}: design {xj.tolist()} optimum {xstar.tolist()} err {err:.3e} tol {tc:.1e} "
                      f"status {getattr(sres, 'status', None)} msg {str(getattr(sres, 'message', ''))[:80]}")
-        elif opt != 'SLSQP' and _control_inaccurate(case, P, run, xstar, tc):
+        elif _control_inaccurate(case, P, run, xstar, tc):
             # the optimizer itself stops away from the optimum on this problem (no optimality claim behind 'success')
             res.classes.append('optimizer_inaccurate_in_control_too')
             return None
@@ -899,7 +901,7 @@ def strategy(tier, opts):
         c = {'opt': opt, 'n': n, 'd': draw(st.integers(1, 3)), 'M': ints(-2, 2, n * n), 'c': ints(-8, 8, n),
              'xf': ints(-6, 6, n), 'dx0': ints(-4, 4, n), 'split': draw(st.integers(0, n - 1)) if n > 1 else 0,
              'ivc': draw(st.booleans()), 'neg_obj': draw(st.integers(0, 4)) == 0,
-             'tol': draw(st.sampled_from([1e-8, 1e-9, 1e-10]))}
+             'tol': draw(st.sampled_from([1e-10, 1e-11, 1e-12] if opt == 'SLSQP' else [1e-8, 1e-9, 1e-10]))}
         ncon = draw(st.sampled_from([1, 1, 2, 2, 3]))
         cons = []
         neq = 0
